@@ -1,5 +1,6 @@
 import GormModel.Drv.Util
 import GormModel.Model.SchemaCache
+import GormModel.Model.WhereSwap
 open Lean
 namespace Gorm.Drv
 open Gorm.SchemaCache
@@ -65,7 +66,22 @@ def scBranches (s : State) : List String :=
   (if n1 > 0 then ["nested-parse"] else []) ++ (if ne > 0 then ["error-return"] else []) ++
   (if gp > 0 then ["getOrParse-hit-unclosed"] else []) ++ (if gc > 0 then ["getOrParse-hit-closed"] else [])
 
-/-- ["sc.sched", cfg, progs, sched] -/
+def parseEK (j : Json) : Option WhereSwap.EK := do
+  match ← jStr? j with
+  | "or1" => some .singleOr
+  | "other" => some .other
+  | _ => none
+
+def parseItem (j : Json) : Option WhereSwap.Item :=
+  match jStr? j with
+  | some "or1" => some (.single .singleOr)
+  | some "other" => some (.single .other)
+  | some _ => none
+  | none => do
+    let inner ← (← jArr? j).toList.mapM parseEK
+    some (.andGroup inner)
+
+/-- ["sc.sched", cfg, progs, sched] ; ["where.swap", [items]] (item = "or1" | "other" | [inner kinds] for an And group) -/
 def handleC07 (op : String) (args : Array Json) : Option Json := do
   match op with
   | "sc.sched" =>
@@ -98,6 +114,12 @@ def handleC07 (op : String) (args : Array Json) : Option Json := do
       ("cache", Json.arr cacheJ.toArray),
       ("branches", strListJ (scBranches s)),
       ("nobj", natJ s.nobj)])
+  | "where.swap" =>
+    let items ← (← jArr? (arg args 1)).toList.mapM parseItem
+    let (inner, ks) := WhereSwap.target items
+    let idxs := List.range ks.length
+    let perm := WhereSwap.after (fun i => ks.getD i .other) idxs
+    some (Json.mkObj [("inner", Json.bool inner), ("perm", natListJ perm), ("writes", natListJ (WhereSwap.writes ks))])
   | _ => none
 
 end Gorm.Drv
